@@ -207,8 +207,21 @@ def run(chk, repo, tier):
         chk.instance(H3, f'CompartmentalSystem.to_dict enumerates through {"ordering helper" if "_order_compartments" in txt or "sorted(" in txt else "?"}')
         if '_order_compartments' not in txt and 'sorted(' not in txt:
             raise AnalysisError('H3: cannot find how CompartmentalSystem.to_dict enumerates the graph')
+    def bare(it):
+        # the enumerated source without order preserving wrappers: enumerate(x), list(x), tuple(x), x.items() ... are all
+        # "iteration over x" (the finding is the same construct however it is wrapped)
+        while True:
+            if isinstance(it, ast.Call) and dotted(it.func) in ('enumerate', 'list', 'tuple', 'iter') and it.args:
+                it = it.args[0]
+            else:
+                return it
+    seen_src = set()
     for it in iters:
         canon = isinstance(it, ast.Call) and unparse(it.func) in ('sorted',)
+        it = bare(it)
+        if unparse(it) in seen_src:
+            continue
+        seen_src.add(unparse(it))
         chk.instance(H3, f'CompartmentalSystem.to_dict iterates `{unparse(it)}` (eq order-insensitive: {order_insensitive})')
         if order_insensitive and not canon:
             chk.violation(H3, cs.module.rel, 'CompartmentalSystem.to_dict', f'iteration over {unparse(it)}',
@@ -226,8 +239,22 @@ def run(chk, repo, tier):
         n_scope += 1
         is_hash_ctx = f.name in ('__hash__', '__eq__') or (f.parent is not None and f.parent.name == 'cache_method') \
             or f.name == 'cache_method' or 'hash_df_runtime' in f.name
+        # list(s) / tuple(s) that go straight into an order-insensitive consumer (sorted(list(s)), set(tuple(s)), len(..)) are
+        # not an ordered value
+        absorbed = {id(x.args[0]) for x in calls_in(f.node) if x.args and unparse(x.func) in (
+            'sorted', 'set', 'frozenset', 'len', 'sum', 'min', 'max', 'any', 'all')}
         for c in calls_in(f.node):
             fn = unparse(c.func)
+            if id(c) in absorbed:
+                continue
+            # ... also through one local: `xs = list(s); return sorted(xs, key=..)`
+            asg = next((a_ for a_ in ast.walk(f.node) if isinstance(a_, ast.Assign) and a_.value is c
+                        and len(a_.targets) == 1 and isinstance(a_.targets[0], ast.Name)), None)
+            if asg is not None:
+                nm_ = asg.targets[0].id
+                loads = [x for x in ast.walk(f.node) if isinstance(x, ast.Name) and x.id == nm_ and isinstance(x.ctx, ast.Load)]
+                if loads and all(id(x) in absorbed for x in loads):
+                    continue
             if fn == 'id':
                 chk.violation(H4, f.module.rel, f.qualname, unparse(c),
                               'object identity (id()) used in the serialisation/hashing closure', line=c.lineno,
